@@ -39,3 +39,29 @@ Theorem C06_presigned_accept_iff : forall H auth epoch_of r now_ns ak region ser
   presigned_accept_exact H auth epoch_of r now_ns ak region service seed.
 Proof. exact presigned_accept_iff. Qed.
 Print Assumptions C06_presigned_accept_iff.
+
+(* what the signature covers cannot be rearranged: two presigned canonical requests that are equal have the same method,
+   the same path bytes and, up to order, the same query parameters other than X-Amz-Signature itself - names and values,
+   so X-Amz-Date, X-Amz-Expires, X-Amz-Credential, X-Amz-SignedHeaders and every operation parameter are pinned; a URL
+   with a longer lifetime, another key or another object needs a hash or HMAC collision *)
+From S3V Require Import proofs.CanonProofs proofs.PresignedPins.
+From Coq Require Import Permutation.
+Theorem C06_presigned_pins_target : forall m1 p1 q1 sh1 m2 p2 q2 sh2,
+  no_nl m1 -> no_nl m2 -> wfb p1 -> wfb p2 -> wf_qs q1 -> wf_qs q2 ->
+  Forall (fun p => no_nl (fst p)) sh1 -> Forall (fun p => no_nl (fst p)) sh2 ->
+  presigned_canonical_request m1 p1 q1 sh1 = presigned_canonical_request m2 p2 q2 sh2 ->
+  m1 = m2 /\ p1 = p2 /\ Permutation (signed_params q1) (signed_params q2).
+Proof. exact presigned_pins_target. Qed.
+Print Assumptions C06_presigned_pins_target.
+Theorem C06_presigned_parameter_pinned : forall m1 p1 q1 sh1 m2 p2 q2 sh2 n v,
+  no_nl m1 -> no_nl m2 -> wfb p1 -> wfb p2 -> wf_qs q1 -> wf_qs q2 ->
+  Forall (fun p => no_nl (fst p)) sh1 -> Forall (fun p => no_nl (fst p)) sh2 ->
+  presigned_canonical_request m1 p1 q1 sh1 = presigned_canonical_request m2 p2 q2 sh2 ->
+  beq n (b "X-Amz-Signature") = false -> In (n, v) q1 -> In (n, v) q2.
+Proof. exact presigned_parameter_pinned. Qed.
+Print Assumptions C06_presigned_parameter_pinned.
+Example C06_signed_params_example :
+  signed_params [(b "X-Amz-Expires", b "60"); (b "X-Amz-Signature", b "00"); (b "versionId", b "3")]
+  = [(b "X-Amz-Expires", b "60"); (b "versionId", b "3")].
+Proof. vm_compute. reflexivity. Qed.
+Print Assumptions C06_signed_params_example.
